@@ -12,9 +12,10 @@
 
 namespace {
 const size_t SLAB = (size_t)64 << 20;  // virtual, MAP_NORESERVE
-const int N_TASK_SLABS = 64;           // task ids 0..63 (+1 for "no task": the sequential phase)
+const int N_TASK_SLABS = 24;           // task ids 0..23 (+1 for "no task": the sequential phase)
 const int SHARED_SLAB = N_TASK_SLABS + 1;
-const int N_SLABS = N_TASK_SLABS + 2;
+const int OUT_SLAB0 = N_TASK_SLABS + 2;  // output slabs: one per task (+1), after the input slabs
+const int N_SLABS = 2 * (N_TASK_SLABS + 1) + 1;
 const size_t PAGE = 4096;
 
 struct Slab {
@@ -178,6 +179,30 @@ void constSharedReset() {
     if (g_slab[SHARED_SLAB].used > ((size_t)1 << 20))
         madvise(g_slab[SHARED_SLAB].base, roundPage(g_slab[SHARED_SLAB].used), MADV_DONTNEED);
     g_slab[SHARED_SLAB].used = 0;
+}
+void *outAlloc(size_t bytes, size_t *slack) {
+    int si = slabOfTask();
+    if (si < 0 || !g_lo) return nullptr;
+    Slab &s = g_slab[OUT_SLAB0 + si];
+    size_t need = (bytes + 15) & ~(size_t)15;
+    size_t start = roundPage(s.used);               // page aligned
+    size_t end = start + roundPage(need ? need : 16);  // boundary B: the fence page starts here
+    if (end + PAGE > SLAB) return nullptr;
+    uint8_t *p = s.base + end - need;
+    if (slack) *slack = need - bytes;
+    mprotect(s.base + end, PAGE, PROT_NONE);
+    s.used = end + PAGE;
+    s.sealedLen = 0;
+    return p;
+}
+void outReleaseOp() {
+    int si = slabOfTask();
+    if (si < 0 || !g_lo) return;
+    Slab &s = g_slab[OUT_SLAB0 + si];
+    if (!s.used) return;
+    mprotect(s.base, s.used, PROT_READ | PROT_WRITE);
+    if (s.used > ((size_t)1 << 20)) madvise(s.base, s.used, MADV_DONTNEED);
+    s.used = 0;
 }
 int64_t constSealedCalls() { return g_sealedCalls; }
 int64_t constTrappedStores() { return g_trapped; }
